@@ -7,6 +7,7 @@ import numpy as np
 import z3
 
 from symx import hx, values as V
+from symx.explore import PathAbort
 
 PROPERTY = "C06"
 FUNCTIONS = [
@@ -38,6 +39,8 @@ ASSUMPTIONS = []
 EXPLORER_OPTS = {"timeout_ms": 20000, "max_paths": 20000}
 BUDGET_S = {"quick": 600, "thorough": 2300}
 TOL = 1e-9
+# tolerance only where concrete float accumulation is involved (e.g. nine times fl(1/9)); everything else is exact
+TOLS = {k: TOL for k in ("e2e_mapping_matrix", "e2e_unique_decoded", "rows_sum_to_one", "unique_equals_dense", "mesh_centres", "sub_fraction")}
 BAND = 1e-9          # decision margin (in units of one mesh pixel) around rectangular cell boundaries
 
 # which sub-size each unmasked pixel gets (first D entries are used)
@@ -74,6 +77,14 @@ def POST_INSTALL():
         r = None
         if conc:
             r = np.float64(min(conc) if want_min else max(conc))
+        # an entry that the path condition already forces to be the extreme is returned as it is (one entailment query each)
+        ctx = V._CTX[0]
+        cands = ([r] if r is not None else []) + [e for e in flat if V.is_sym(e)]
+        for c in cands[:6]:
+            ct = V.to_real_term(c)
+            viol = [(ct > V.to_real_term(o)) if want_min else (ct < V.to_real_term(o)) for o in cands if o is not c]
+            if not viol or ctx._check(z3.Or(*viol))[0] == "unsat":
+                return c
         for e in flat:
             if not V.is_sym(e):
                 continue
@@ -121,6 +132,20 @@ def POST_INSTALL():
 
     for nm in ("abs", "absolute", "fabs"):
         setattr(shim.NPFacade, nm, pabs)
+
+    # branch conditions are put into sum-of-monomials form before they reach the solver: the nearest-vertex search compares
+    # squared distances (v - p)^2 whose quadratic parts cancel, so the path condition stays linear (pure rewriting, same meaning)
+    from symx import explore
+    if not getattr(explore.Explorer.decide, "_c06_som", False):
+        orig_decide = explore.Explorer.decide
+
+        def decide(self, c, payload_fn=None):
+            if not isinstance(c, (bool, np.bool_)):
+                c = z3.simplify(c, som=True)
+            return orig_decide(self, c, payload_fn)
+
+        decide._c06_som = True
+        explore.Explorer.decide = decide
 
 
 def _known(ids_regions):
@@ -239,7 +264,11 @@ def _sum(xs):
 def _rect_lines(box, H, W, buffer=1e-8, exact=False):
     """reference geometry of the overlaid mesh: row lines Y[0..H] (top to bottom), column lines X[0..W] (left to right)"""
     y0, y1, x0, x1 = box
-    if exact:
+    if any(_sym(v) for v in box):
+        b = Fraction(buffer)
+        top, left = y1 + b, x0 - b
+        sy, sx = (y1 - y0 + 2 * b) / H, (x1 - x0 + 2 * b) / W
+    elif exact:
         F = Fraction
         b = F(buffer)
         top, left = F(y1) + b, F(x0) - b
@@ -260,7 +289,7 @@ def _num(v):
     return v
 
 
-def body_rect(inp, mask, sub, H, W, box, **_):
+def body_rect(inp, mask, sub, H, W, box, ext=None, **_):
     """class level: mesh.Rectangular -> MapperGrids -> Mapper on a source-plane grid whose bounding box is concrete
     (attained by the anchor sub-pixels) and whose remaining coordinates are free"""
     import autoarray as aa
@@ -271,7 +300,12 @@ def body_rect(inp, mask, sub, H, W, box, **_):
     if not symbolic:
         pos = pos.astype(float)
     A, E = {}, {}
-    bx = BOXES[box]
+    if box is not None:
+        bx = BOXES[box]
+    elif symbolic:
+        bx = (pos[ext[1], 0], pos[ext[0], 0], pos[ext[3], 1], pos[ext[2], 1])     # designated extremes (assumed by the case)
+    else:
+        bx = (min(pos[:, 0]), max(pos[:, 0]), min(pos[:, 1]), max(pos[:, 1]))
     Y, X, sy, sx = _rect_lines(bx, H, W, exact=symbolic)
     Y, X, sy, sx = [_num(v) for v in Y], [_num(v) for v in X], _num(sy), _num(sx)
     dy, dx = sy * BAND, sx * BAND
@@ -304,8 +338,9 @@ def body_rect(inp, mask, sub, H, W, box, **_):
         E["cell_contains_point"] = [True] * N
     # mesh geometry the mapper works with (centres of the H x W cells laid over the bounding box + buffer)
     cen = np.array([[(Y[r] + Y[r + 1]) / 2.0, (X[c] + X[c + 1]) / 2.0] for r in range(H) for c in range(W)], dtype=object)
-    A["mesh_centres"] = hx.attempt(lambda: np.asarray(mapper.source_plane_mesh_grid.array))
-    E["mesh_centres"] = cen
+    if box is not None or not symbolic:      # (symbolic boxes: decided separately in case_overlay)
+        A["mesh_centres"] = hx.attempt(lambda: np.asarray(mapper.source_plane_mesh_grid.array))
+        E["mesh_centres"] = cen
     # independent reference matrix: indicator of the open cell that contains the point (points on cell lines are excluded
     # from these 'e2e_' obligations by a group assumption)
     Eref = np.zeros((D, P), dtype=object)
@@ -335,6 +370,79 @@ def body_rect(inp, mask, sub, H, W, box, **_):
     return A, E
 
 
+def _fold_ref(xs, want_min):
+    r = xs[0]
+    for e in xs[1:]:
+        if _sym(r) or _sym(e):
+            c = (r <= e) if want_min else (r >= e)
+            r = V.SymReal(z3.If(V.to_bool_term(c), V.to_real_term(r), V.to_real_term(e)))
+        else:
+            r = min(r, e) if want_min else max(r, e)
+    return r
+
+
+def body_overlay(inp, H, W, N, via="mesh", buffer=None, ext=None, **_):
+    """overlay geometry for a completely symbolic source-plane grid: scales, origin, cell centres, containment of every point"""
+    import autoarray as aa
+    pos = np.asarray(inp["pos"], dtype=object).reshape(N, 2)
+    if not any(_sym(e) for e in pos.reshape(-1)):
+        pos = pos.astype(float)
+    b = 1e-8 if buffer is None else buffer
+    ys, xs = [pos[s, 0] for s in range(N)], [pos[s, 1] for s in range(N)]
+    if ext is not None and any(_sym(e) for e in pos.reshape(-1)):
+        y1, y0, x1, x0 = ys[ext[0]], ys[ext[1]], xs[ext[2]], xs[ext[3]]        # designated extremes (assumed by the case)
+    else:
+        y0, y1, x0, x1 = _fold_ref(ys, True), _fold_ref(ys, False), _fold_ref(xs, True), _fold_ref(xs, False)
+    sy, sx = (y1 - y0 + 2 * b) / H, (x1 - x0 + 2 * b) / W
+    top, left = y1 + b, x0 - b
+    A, E = {}, {}
+    if via == "mesh":
+        mg = hx.attempt(lambda: aa.mesh.Rectangular(shape=(H, W)).mapper_grids_from(
+            mask=None, source_plane_data_grid=aa.Grid2DIrregular(values=pos), border_relocator=None).source_plane_mesh_grid)
+    else:
+        mg = hx.attempt(lambda: aa.Mesh2DRectangular.overlay_grid(shape_native=(H, W), grid=pos, **({} if buffer is None else {"buffer": buffer})))
+    if isinstance(mg, hx.Raised):
+        return {"overlay": mg}, {"overlay": "no exception"}
+    A["shape_native"], E["shape_native"] = [int(v) for v in mg.shape_native], [H, W]
+    A["pixel_scales"], E["pixel_scales"] = [mg.pixel_scales[0], mg.pixel_scales[1]], [sy, sx]
+    A["origin"], E["origin"] = [mg.origin[0], mg.origin[1]], [(y1 + y0) / 2.0, (x1 + x0) / 2.0]
+    cen = np.asarray(hx.unwrap(mg))
+    A["centres_shape"], E["centres_shape"] = list(cen.shape), [H * W, 2]
+    if list(cen.shape) == [H * W, 2]:
+        for r in range(H):
+            for c in range(W):
+                A["centre_%d_%d" % (r, c)] = [cen[r * W + c, 0], cen[r * W + c, 1]]
+                E["centre_%d_%d" % (r, c)] = [top - (r + 0.5) * sy, left + (c + 0.5) * sx]
+    # every point lies strictly inside the mesh extent published by the mesh object (extent = origin +- shape * scales / 2)
+    oy, ox, py, px = mg.origin[0], mg.origin[1], mg.pixel_scales[0], mg.pixel_scales[1]
+    A["points_strictly_inside_mesh"] = [_and(oy - H * py / 2.0 < ys[s], ys[s] < oy + H * py / 2.0,
+                                             ox - W * px / 2.0 < xs[s], xs[s] < ox + W * px / 2.0) for s in range(N)]
+    E["points_strictly_inside_mesh"] = [True] * N
+    return A, E
+
+
+def case_overlay(ctx, H, W, N, via="mesh", buffer=None, ext=None, span=64.0):
+    """ext = indices of the points attaining y_max, y_min, x_max, x_min (enumerated); ext None: if-then-else min/max (small N only)"""
+    pos = V.real_array("p", (N, 2))
+    for e in pos.reshape(-1):
+        ctx.assume(z3.And(e.t >= -V.rval(span), e.t <= V.rval(span)))
+    if ext == "all":
+        ks = [z3.Int("ext_%d" % i) for i in range(4)]
+        ctx.assume(z3.And(*[z3.And(k >= 0, k < N) for k in ks]))
+        ext = [ctx.concretize_int(k) for k in ks]
+        ctx.set_case(ext=ext)
+    if ext is not None:
+        for s in range(N):
+            ctx.assume(z3.And(pos[s, 0].t <= pos[ext[0], 0].t, pos[s, 0].t >= pos[ext[1], 0].t,
+                              pos[s, 1].t <= pos[ext[2], 1].t, pos[s, 1].t >= pos[ext[3], 1].t))
+    old = _MINMAX_MODE[0]
+    _MINMAX_MODE[0] = "ite" if ext is None else "fork"
+    try:
+        hx.run_body(ctx, body_overlay, {"pos": pos}, {"H": H, "W": W, "N": N, "via": via, "buffer": buffer, "ext": ext}, tol=None, validate_every=1)
+    finally:
+        _MINMAX_MODE[0] = old
+
+
 def _mask_from(ctx, mshape, mask):
     if mask is not None:
         return np.array(mask, dtype=bool).reshape(mshape)
@@ -343,41 +451,54 @@ def _mask_from(ctx, mshape, mask):
     return ctx.concrete_bools(mb)
 
 
-def case_rect(ctx, mshape, sub, H, W, box, anchors, regions, mask=None):
+def case_rect(ctx, mshape, sub, H, W, box, anchors, regions, mask=None, span=8.0):
     """anchors: indices (into the sub-pixel list, modulo its length) of the sub-pixels attaining y_max, y_min, x_max, x_min;
+    box: name of a concrete bounding box (those four coordinates are then concrete) or None (every coordinate symbolic, the
+    anchors are only assumed to be the extremes);
     regions: per sub-pixel either None (anywhere in the box) or [r0, r1, c0, c1] = block of mesh cells it is confined to"""
     mask = _mask_from(ctx, mshape, mask)
     D = int((~mask).sum())
     sub_list = SUB_PATTERNS[sub][:D]
     N = sum(s * s for s in sub_list)
     Nmax = sum(s * s for s in SUB_PATTERNS[sub][:int(np.prod(mshape))])
-    y0, y1, x0, x1 = BOXES[box]
-    Yl, Xl, sy, sx = _rect_lines(BOXES[box], H, W, exact=True)
-    rv = lambda f: z3.RealVal(f.numerator) / z3.RealVal(f.denominator)
+    if N < 2:
+        raise PathAbort()     # a single sub-pixel: degenerate box (extent = 2 * buffer), not a meaningful overlay
     pos = V.real_array("p", (Nmax, 2))
-    if N >= 2:
-        a = [k % N for k in anchors]
-        if a[0] == a[1]:
-            a[1] = (a[1] + 1) % N
-        if a[2] == a[3]:
-            a[3] = (a[3] + 1) % N
+    a = [k % N for k in anchors]
+    if a[0] == a[1]:
+        a[1] = (a[1] + 1) % N
+    if a[2] == a[3]:
+        a[3] = (a[3] + 1) % N
+    if box is not None:
+        y0, y1, x0, x1 = BOXES[box]
         pos[a[0], 0], pos[a[1], 0], pos[a[2], 1], pos[a[3], 1] = np.float64(y1), np.float64(y0), np.float64(x1), np.float64(x0)
+        Yl, Xl, sy, sx = _rect_lines(BOXES[box], H, W, exact=True)
+        rv = lambda f: z3.RealVal(f.numerator) / z3.RealVal(f.denominator)
+        bnd = [(V.rval(y0), V.rval(y1)), (V.rval(x0), V.rval(x1))]
     else:
-        pos[0, 0], pos[0, 1] = np.float64(y1), np.float64(x0)     # a single sub-pixel: degenerate box (extent = 2 * buffer)
-        return       # (not a meaningful overlay; skipped)
+        bx = (pos[a[1], 0], pos[a[0], 0], pos[a[3], 1], pos[a[2], 1])
+        Yl, Xl, sy, sx = _rect_lines(bx, H, W)
+        rv = V.to_real_term
+        bnd = [(bx[0].t, bx[1].t), (bx[2].t, bx[3].t)]
+        for v in bx:
+            ctx.assume(z3.And(v.t >= -V.rval(span), v.t <= V.rval(span)))
+        ctx.assume(z3.And(bx[1].t - bx[0].t >= V.rval(2.0 ** -6), bx[3].t - bx[2].t >= V.rval(2.0 ** -6)))
     band = []
     for s in range(Nmax):
         reg = regions[s % len(regions)] if regions else None
-        for d, lo, hi, lines, n in ((0, y0, y1, Yl, H), (1, x0, x1, Xl, W)):
+        for d, lines, n in ((0, Yl, H), (1, Xl, W)):
             e = pos[s, d]
             if not _sym(e):
                 continue
-            ctx.assume(z3.And(e.t >= V.rval(lo), e.t <= V.rval(hi)))
+            if not any(e is b_ for b_ in (pos[a[0], 0], pos[a[1], 0], pos[a[2], 1], pos[a[3], 1])):
+                ctx.assume(z3.And(e.t >= bnd[d][0], e.t <= bnd[d][1]))
             if reg is not None and s < N:
+                # confined to a block of cells, at least BAND pixel inside the block's outer lines
+                step = rv((sy if d == 0 else sx) * Fraction(BAND))
                 if d == 0:
-                    ctx.assume(z3.And(e.t <= rv(lines[reg[0]]), e.t >= rv(lines[min(reg[1], H - 1) + 1])))
+                    ctx.assume(z3.And(e.t <= rv(lines[min(reg[0], H - 1)]) - step, e.t >= rv(lines[min(reg[1], H - 1) + 1]) + step))
                 else:
-                    ctx.assume(z3.And(e.t >= rv(lines[reg[2]]), e.t <= rv(lines[min(reg[3], W - 1) + 1])))
+                    ctx.assume(z3.And(e.t >= rv(lines[min(reg[2], W - 1)]) + step, e.t <= rv(lines[min(reg[3], W - 1) + 1]) - step))
             if s < N:
                 step = sy if d == 0 else sx
                 for ln in lines:
@@ -386,9 +507,8 @@ def case_rect(ctx, mshape, sub, H, W, box, anchors, regions, mask=None):
         ctx.assume(b, group="e2e")
     ctx.set_case(mask=mask.tolist())
     inputs = {"pos": pos}
-    kw = {"mask": mask.tolist(), "sub": sub, "H": H, "W": W, "box": box}
-    hx.run_body(ctx, body_rect, inputs, kw, tol=TOL, validate_every=8, groups=lambda k: "e2e" if k.startswith("e2e") else None)
-
+    kw = {"mask": mask.tolist(), "sub": sub, "H": H, "W": W, "box": box, "ext": a}
+    hx.run_body(ctx, body_rect, inputs, kw, tol=TOLS, validate_every=8, groups=lambda k: "e2e" if k.startswith("e2e") else None)
 
 
 # --------------------------------------------------------------------------------------------- Delaunay meshes
@@ -574,7 +694,7 @@ def case_del(ctx, mshape, sub, verts, plan, mask=None, span=4.0):
     ctx.set_case(mask=mask.tolist(), simplex=chosen)
     inputs = {"pos": pos, "simplex": chosen}
     kw = {"mask": mask.tolist(), "sub": sub, "verts": verts}
-    hx.run_body(ctx, body_del, inputs, kw, tol=TOL, validate_every=8, groups=lambda k: "e2e" if k.startswith("e2e") else None)
+    hx.run_body(ctx, body_del, inputs, kw, tol=TOLS, validate_every=8, groups=lambda k: "e2e" if k.startswith("e2e") else None)
 
 
 
@@ -634,7 +754,9 @@ def body_tables(inp, sub, K, P, sizes):
     return A, E
 
 
-def case_tables(ctx, sub, K, P, sizes):
+def case_tables(ctx, sub, K, P, sizes, mode="fork", distinct=False):
+    """mode "merge": index tables stay symbolic integers, the two kernels run through the merge interpreter (one path);
+    mode "fork": every index is concretised by forking (all P^n tables are enumerated), weights stay symbolic"""
     from symx import merge
     sub_list = list(sub)
     N = sum(s * s for s in sub_list)
@@ -645,24 +767,107 @@ def case_tables(ctx, sub, K, P, sizes):
             if k < sizes[s]:
                 t = z3.Int("idx_%d_%d" % (s, k))
                 ctx.assume(z3.And(t >= 0, t < P))
+                if distinct:
+                    ctx.assume(z3.And(*[t != idx[s, k2].t for k2 in range(k)]))
                 idx[s, k] = V.SymInt(t, bounds=(0, P - 1))
             else:
                 idx[s, k] = -1
                 w[s, k] = np.float64(0.0)
-    inputs = {"idx": idx, "w": w}
-    with merge.merging() as ev:
-        hx.run_body(ctx, body_tables, inputs, {"sub": sub_list, "K": K, "P": P, "sizes": list(sizes)}, tol=None, validate_every=1)
-        ctx.check("no exception event reachable in the kernels", [z3.Not(g) for (g, n, m) in ev])
+    kw = {"sub": sub_list, "K": K, "P": P, "sizes": list(sizes)}
+    if mode == "merge":
+        with merge.merging() as ev:
+            hx.run_body(ctx, body_tables, {"idx": idx, "w": w}, kw, tol=None, validate_every=1)
+            ctx.check("no exception event reachable in the kernels", [z3.Not(g) for (g, n, m) in ev])
+    else:
+        for s in range(N):
+            for k in range(int(sizes[s])):
+                idx[s, k] = ctx.concretize_int(idx[s, k].t)
+        ctx.set_case(idx=[[int(v) for v in r] for r in idx])
+        hx.run_body(ctx, body_tables, {"idx": idx.astype(int), "w": w}, kw, tol=None, validate_every=64)
 
 
-BODIES = {"case_rect": body_rect, "case_del": body_del, "case_tables": body_tables}
+BODIES = {"case_rect": body_rect, "case_del": body_del, "case_tables": body_tables, "case_overlay": body_overlay}
 
 
 
 
 def cases(tier):
+    q = tier == "quick"
     out = []
-    out.append(("case_rect", {"mshape": [1, 2], "sub": "a", "H": 3, "W": 3, "box": "A", "anchors": [0, 1, 2, 3], "regions": None, "mask": [[False, False]]}))
+    M12, M13 = [[False, False]], [[False, False, False]]
+    # --- overlay geometry, everything symbolic, every assignment of the four extremes to N points
+    ov = [(3, 3, 2, "mesh", None, "all"), (3, 5, 2, "overlay", 0.25, "all"), (4, 3, 3, "mesh", None, [0, 1, 2, 0]), (3, 4, 3, "overlay", None, [2, 2, 1, 0]),
+          (3, 7, 6, "mesh", None, [4, 1, 1, 3])]
+    if not q:
+        ov += [(3, 3, 3, "mesh", None, "all"), (3, 4, 3, "overlay", None, "all"), (5, 3, 3, "overlay", 0.25, "all"), (3, 5, 4, "mesh", None, "all"),
+               (6, 3, 3, "overlay", 0.0, "all"), (4, 6, 2, "mesh", None, "all")]
+    for (H, W, N, via, buf, ext) in ov:
+        out.append(("case_overlay", {"H": H, "W": W, "N": N, "via": via, "buffer": buf, "ext": ext}))
+    # --- rectangular mapper, concrete bounding box attained by the anchors, other coordinates symbolic
+    rect = [
+        dict(mshape=[1, 2], sub="a", H=3, W=3, box="A", anchors=[0, 1, 2, 3], regions=[[0, 1, 0, 1], None, [1, 2, 1, 2], [2, 2, 0, 2], [1, 1, 1, 1]], mask=M12),
+        dict(mshape=[1, 2], sub="b", H=3, W=4, box="B", anchors=[4, 0, 0, 3], regions=[[0, 0, 1, 3], [1, 1, 0, 1], None, [2, 2, 2, 3], [0, 1, 3, 3]], mask=M12),
+        dict(mshape=[1, 3], sub="c", H=4, W=3, box="C", anchors=[0, 1, 1, 2], regions=[None, None, None], mask=M13),
+        dict(mshape=[1, 2], sub="d", H=3, W=3, box="D", anchors=[9, 3, 5, 0], regions=[[0, 0, 0, 0], [0, 1, 1, 2], [1, 1, 0, 0], [2, 2, 2, 2], [1, 2, 1, 1], [0, 0, 2, 2]], mask=M12),
+        dict(mshape=[2, 2], sub="b", H=3, W=3, box="A", anchors=[0, 2, 1, 0], regions=[[0, 0, 0, 1], [1, 1, 1, 1], [2, 2, 0, 0], [1, 2, 2, 2]], mask=None),
+    ]
+    if not q:
+        rect += [
+            dict(mshape=[1, 2], sub="e", H=5, W=3, box="B", anchors=[7, 2, 3, 6], regions=[[0, 1, 0, 0], [4, 4, 1, 2], [2, 3, 1, 1], [3, 3, 0, 2]], mask=M12),
+            dict(mshape=[1, 2], sub="f", H=3, W=5, box="C", anchors=[15, 3, 16, 0], regions=[[0, 0, 0, 1], [1, 1, 2, 4], [2, 2, 1, 1], [0, 2, 3, 3], [1, 2, 0, 0]], mask=M12),
+            dict(mshape=[1, 3], sub="g", H=4, W=4, box="D", anchors=[0, 9, 10, 1], regions=[None, [0, 1, 0, 1], [2, 3, 2, 3], [1, 2, 1, 2], [3, 3, 0, 3], [0, 0, 3, 3]], mask=M13),
+            dict(mshape=[2, 3], sub="a", H=3, W=3, box="B", anchors=[0, 2, 1, 0], regions=[[0, 0, 0, 1], [1, 1, 1, 2], [2, 2, 0, 0], [1, 2, 2, 2]], mask=None),
+            dict(mshape=[1, 3], sub="a", H=6, W=3, box="A", anchors=[5, 1, 1, 4], regions=[None, [0, 2, 0, 0], [3, 5, 1, 2], None, [2, 3, 1, 1], [5, 5, 0, 2]], mask=M13),
+            dict(mshape=[1, 2], sub="c", H=7, W=8, box="D", anchors=[0, 1, 1, 0], regions=[None, None], mask=M12),
+        ]
+    for c in rect:
+        out.append(("case_rect", c))
+    # --- rectangular mapper, symbolic bounding box (designated extremes), non-linear index arithmetic
+    out.append(("case_rect", dict(mshape=[1, 2], sub="c", H=3, W=4, box=None, anchors=[0, 1, 1, 0], regions=[None, None], mask=M12)))
+    if not q:
+        out.append(("case_rect", dict(mshape=[1, 3], sub="c", H=3, W=3, box=None, anchors=[0, 1, 0, 1], regions=[None, None, [0, 1, 1, 2]], mask=M13)))
+        out.append(("case_rect", dict(mshape=[1, 3], sub="c", H=3, W=4, box=None, anchors=[0, 1, 1, 2], regions=[None, None, None], mask=M13), {"timeout_ms": 60000}))
+        out.append(("case_rect", dict(mshape=[1, 2], sub="b", H=4, W=3, box=None, anchors=[0, 1, 0, 2], regions=[None, None, [1, 2, 1, 1], [0, 1, 0, 1], [2, 3, 2, 2]], mask=M12), {"timeout_ms": 60000}))
+    # --- Delaunay mapper: one free point over the whole plane for every vertex set
+    for vn in ["v4", "v5", "v6", "v7"] + ([] if q else ["v9"]):
+        out.append(("case_del", dict(mshape=[1, 1], sub="c", verts=vn, plan=["free"], mask=[[False]])))
+    dl = [
+        dict(mshape=[1, 2], sub="b", verts="v5", plan=["free", 0, 1, 3, 2], mask=M12),
+        dict(mshape=[1, 2], sub="a", verts="v6", plan=[0, 4, 2, 3, -1], mask=M12),
+        dict(mshape=[1, 2], sub="d", verts="v7", plan=[0, 1, 2, 3, 4, 5, 6, 0, 3, "free", 5, 2], mask=M12),
+        dict(mshape=[1, 2], sub="c", verts="v4", plan=["free", "free"], mask=M12),
+        dict(mshape=[2, 2], sub="b", verts="v5", plan=[0, 1, 2, 0, 1, 2, 1], mask=None),
+    ]
+    if not q:
+        dl += [
+            dict(mshape=[1, 3], sub="c", verts="v6", plan=[-1, "free", 1], mask=M13),
+            dict(mshape=[1, 2], sub="a", verts="v6", plan=[0, "free", 2, 3, -1], mask=M12),
+            dict(mshape=[1, 2], sub="c", verts="v5", plan=["free", "free"], mask=M12),
+            dict(mshape=[1, 2], sub="f", verts="v9", plan=[0, 1, 2, 3, 4, 5, 6, 7, "free", 1, 3, 5, 7, 0, 2, 4, -1], mask=M12),
+            dict(mshape=[2, 3], sub="a", verts="v7", plan=[0, 1, 2, 3, 4, 5, 6, 5, 4, 3, 2, 1], mask=None),
+            dict(mshape=[1, 3], sub="g", verts="v6", plan=["free", 0, 1, 2, 3, 0, 1, 2, 3, -1, 1, 2, 3, 0, 2], mask=M13),
+        ]
+    for c in dl:
+        out.append(("case_del", c))
+    # --- dense / sparse kernels on index tables: all tables by forking, or symbolic tables through the merge interpreter
+    tb = [
+        (dict(sub=[1, 2], K=1, P=3, sizes=[1, 1, 1, 1, 1]), {}),
+        (dict(sub=[2, 1], K=2, P=2, sizes=[2, 1, 2, 1, 1]), {}),
+        (dict(sub=[1, 1], K=3, P=3, sizes=[3, 2], distinct=True), {}),
+        (dict(sub=[1, 1, 1], K=1, P=3, sizes=[1, 1, 1], mode="merge"), {}),
+        (dict(sub=[1, 1], K=2, P=3, sizes=[2, 1], mode="merge"), {}),
+    ]
+    if not q:
+        tb += [
+            (dict(sub=[2, 1], K=2, P=3, sizes=[2, 1, 2, 1, 1]), {"split": 3}),
+            (dict(sub=[1, 1], K=3, P=4, sizes=[3, 3], distinct=True), {}),
+            (dict(sub=[1, 1], K=3, P=3, sizes=[3, 3], mode="merge"), {}),
+            (dict(sub=[2, 1, 2], K=1, P=2, sizes=[1] * 9), {"split": 3}),
+            (dict(sub=[1, 2], K=3, P=4, sizes=[3, 1, 1, 1, 1], distinct=True), {"split": 3}),
+            (dict(sub=[3, 1], K=1, P=2, sizes=[1] * 10), {"split": 3}),
+        ]
+    for c, o in tb:
+        out.append(("case_tables", c, o) if o else ("case_tables", c))
     return out
 
 
@@ -672,7 +877,11 @@ def replay(cand):
     case = dict(cand["case"])
     if "mask" in case:
         kw["mask"] = case["mask"]
-    for k in ("mshape", "anchors", "regions", "plan", "span"):
+    for k in ("mshape", "anchors", "regions", "plan", "span", "mode", "distinct"):
+        kw.pop(k, None)
+    if cand["case_fn"] == "case_rect":
+        kw.pop("ext", None)
+    for k in ():
         kw.pop(k, None)
     c2["case_kwargs"] = kw
     c2["case"] = case
